@@ -179,6 +179,11 @@ func (r *run) c07Int(t typeInfo, thorough bool) {
 		if len(p) != t.fixed || (t.fixed > 1 && p[0] != 0) || (t.fixed == 1 && p[0] > 63) {
 			r.violation("encoding-shape", op, fmt.Sprintf("encoding %s: want %d bytes, leading zero byte (6-bit value for one byte)", hx(p), t.fixed))
 		}
+		// scene number / scene control: the number lives in the low six bits of the last octet; bit 6 is
+		// reserved (17.001: bit 7 as well), whatever value was handed in
+		if last := p[len(p)-1]; len(p) == t.fixed && ((t.name == "DPT_17001" && last > 63) || (t.name == "DPT_18001" && last&0x40 != 0)) {
+			r.violation("scene-encoding-sets-reserved-bit", op, "encoding "+hx(p)+": the scene number occupies the low six bits, the reserved bit above them is zero")
+		}
 		cls, v2, _, msg2 := unpack(t.key, p)
 		r.emit("dpu "+t.name+" "+hx(p), outOf(cls, v2))
 		if cls != "ok" {
